@@ -111,16 +111,29 @@ Definition next (r : req) (it : iter) (ex : list N) : option (iter * list N) :=
   end.
 
 (* ================= credentials and definitions ================= *)
-(* VArr: an array-valued member, opaque (identified by a code): no scalar filter keyword accepts it *)
-Inductive jv := VNum (z : Z) | VStr (s : N) | VBool (b : bool) | VArr (a : N).
-Definition jv_eqb (a b : jv) : bool :=
+(* VArr: an array-valued member (of scalars): no scalar filter keyword accepts the array itself; its elements are
+   addressed by index paths *)
+Inductive jv := VNum (z : Z) | VStr (s : N) | VBool (b : bool) | VArr (l : list jv).
+Fixpoint jv_eqb (a b : jv) : bool :=
   match a, b with
   | VNum x, VNum y => Z.eqb x y
   | VStr x, VStr y => N.eqb x y
   | VBool x, VBool y => Bool.eqb x y
-  | VArr x, VArr y => N.eqb x y
+  | VArr x, VArr y =>
+      (fix go (x y : list jv) : bool :=
+         match x, y with
+         | [], [] => true
+         | p :: r, q :: t => jv_eqb p q && go r t
+         | _, _ => false
+         end) x y
   | _, _ => false
   end.
+
+(* path keys: k < 1000 names a leaf (k < 100 top-level member a<k>, 100*o + k member a<k> of the nested object o<o>);
+   1000*(i+1) + k names element i of the array-valued leaf k ($.credentialSubject.a6[1] = 2006) *)
+Definition is_idx (k : N) : bool := N.leb 1000 k.
+Definition path_base (k : N) : N := if is_idx k then N.modulo k 1000 else k.
+Definition path_pos (k : N) : nat := N.to_nat (N.div k 1000 - 1).
 
 (* c_id 0 = no id; c_subject 0 = no subject id; c_jwt 0 = not a JWT credential, else the alg code;
    c_proofs = linked-data proof types; c_types = credential types (= schema URIs satisfied);
@@ -193,8 +206,15 @@ Definition make_req (p : defn) : option req :=
   end.
 
 (* ================= descriptor evaluation ================= *)
+Definition find_attr (k : N) (l : list (N * jv)) : option jv :=
+  match find (fun kv => N.eqb (fst kv) k) l with Some kv => Some (snd kv) | None => None end.
 Definition lookup (k : N) (c : cred) : option jv :=
-  match find (fun kv => N.eqb (fst kv) k) (c_attrs c) with Some kv => Some (snd kv) | None => None end.
+  if is_idx k then
+    match find_attr (path_base k) (c_attrs c) with
+    | Some (VArr l) => nth_error l (path_pos k)
+    | _ => None
+    end
+  else find_attr k (c_attrs c).
 
 Definition type_ok (t : N) (v : jv) : bool :=
   match t, v with
@@ -307,20 +327,66 @@ Definition set_attr (k : N) (v : jv) (l : list (N * jv)) : list (N * jv) :=
   then map (fun kv => if N.eqb (fst kv) k then (k, v) else kv) l
   else l ++ [(k, v)].
 
-(* createNewCredential: every path of every field that exists in the source is written into the
-   template (value, or true for a predicate field) *)
-Fixpoint write_paths (src : cred) (pred : bool) (paths : list N) (acc : list (N * jv)) : list (N * jv) :=
-  match paths with
-  | [] => acc
-  | p :: r => match lookup p src with
-              | Some v => write_paths src pred r (set_attr p (if pred then VBool true else v) acc)
-              | None => write_paths src pred r acc
-              end
+(* sjson.Set of an array element *)
+Fixpoint set_nth_jv (n : nat) (v : jv) (l : list jv) : list jv :=
+  match n, l with
+  | _, [] => [v]
+  | O, _ :: t => v :: t
+  | S m, x :: t => x :: set_nth_jv m v t
   end.
-Fixpoint write_fields (src : cred) (fs : list field) (acc : list (N * jv)) : list (N * jv) :=
+Definition set_elem (k : N) (pos : nat) (v : jv) (l : list (N * jv)) : list (N * jv) :=
+  match find_attr k l with
+  | Some (VArr a) => set_attr k (VArr (set_nth_jv pos v a)) l
+  | _ => set_attr k (VArr [v]) l
+  end.
+
+Fixpoint insert_N (x : N) (l : list N) : list N :=
+  match l with [] => [x] | y :: t => if N.leb x y then x :: l else y :: insert_N x t end.
+(* the streaming JSONPath evaluator reports matches in document order: the elements of one array by rising index *)
+Definition doc_order (paths : list N) : list N :=
+  filter (fun k => negb (is_idx k)) paths ++ fold_right insert_N [] (filter is_idx paths).
+
+(* positions of kept array elements in the limited credential (compactArrayPaths/getPath): (index path, position) *)
+Definition posmap := list (N * nat).
+Definition pos_of (k : N) (pm : posmap) : option nat :=
+  match find (fun e => N.eqb (fst e) k) pm with Some e => Some (snd e) | None => None end.
+Definition next_pos (k : N) (pm : posmap) : nat :=
+  length (filter (fun e => N.eqb (path_base (fst e)) (path_base k)) pm).
+
+(* createNewCredential: every path of every field that exists in the source is written into the template (value,
+   or true for a predicate field).  compact = the template is the minimal one (limit_disclosure): array elements
+   land on consecutive positions; otherwise (repaired code) on their own position. *)
+Fixpoint write_paths (src : cred) (pred compact : bool) (paths : list N) (pm : posmap) (acc : list (N * jv))
+  : posmap * list (N * jv) :=
+  match paths with
+  | [] => (pm, acc)
+  | p :: r =>
+      match lookup p src with
+      | Some v =>
+          let v' := if pred then VBool true else v in
+          if is_idx p then
+            if compact then
+              match pos_of p pm with
+              | Some n => write_paths src pred compact r pm (set_elem (path_base p) n v' acc)
+              | None => let n := next_pos p pm in
+                        write_paths src pred compact r (pm ++ [(p, n)]) (set_elem (path_base p) n v' acc)
+              end
+            else write_paths src pred compact r pm (set_elem (path_base p) (path_pos p) v' acc)
+          else write_paths src pred compact r pm (set_attr p v' acc)
+      | None => write_paths src pred compact r pm acc
+      end
+  end.
+
+(* v = AsIs: before fixes 1df7ff3 / d3f0a75 every field numbered the positions anew and the positions were the
+   compacted ones even on the full credential *)
+Fixpoint write_fields (v : variant) (src : cred) (limit : bool) (fs : list field) (pm : posmap) (acc : list (N * jv))
+  : list (N * jv) :=
   match fs with
   | [] => acc
-  | f :: r => write_fields src r (write_paths src (f_pred f) (f_paths f) acc)
+  | f :: r =>
+      let compact := match v with AsIs => true | Fixed => limit end in
+      let '(pm', acc') := write_paths src (f_pred f) compact (doc_order (f_paths f)) (match v with AsIs => [] | Fixed => pm end) acc in
+      write_fields v src limit r pm' acc'
   end.
 
 Definition id_key (v : variant) (i : nat) (c : cred) : ckey :=
@@ -332,10 +398,11 @@ Definition id_key (v : variant) (i : nat) (c : cred) : ckey :=
 (* the new credential of createNewCredential (plain credentials).  The template of a limited credential keeps
    id, type, issuer, issuanceDate and toSubject(subject): the subject id alone for the parsed single-subject form,
    the WHOLE subject for a subject held as a map (pinned by the package's example tests: known finding) *)
-Definition limited_cred (k : constraints) (c : cred) : cred :=
+Definition limited_cred (v : variant) (k : constraints) (c : cred) : cred :=
   {| c_id := c_id c; c_issuer := c_issuer c; c_subject := c_subject c; c_types := c_types c;
      c_proofs := if k_limit k then [] else c_proofs c; c_jwt := c_jwt c; c_sd := false; c_rawsubj := false;
-     c_attrs := write_fields c (k_fields k) (if k_limit k then (if c_rawsubj c then c_attrs c else []) else c_attrs c) |}.
+     c_attrs := write_fields v c (k_limit k) (k_fields k) []
+                             (if k_limit k then (if c_rawsubj c then c_attrs c else []) else c_attrs c) |}.
 
 (* getLimitedDisclosures (SD-JWT): the disclosures kept are those of the leaves a field path names, identified by
    their position (digest listed in the parent object of the path), never by claim name alone *)
@@ -358,7 +425,7 @@ Definition limit_one (v : variant) (d : desc) (ic : icred) : list wcred :=
       (* supportsSelectiveDisclosure: a BBS+ credential (proof type 3) is limited by deriving a proof that reveals
          the template + requested members: at the level of members the same credential as the field copy *)
       if k_limit k && negb (pred || subject_is_issuer c || memN 3 (c_proofs c)) then []
-      else if k_limit k || pred then [{| w_key := KTmp (d_id d) i; w_src := i; w_cred := limited_cred k c |}]
+      else if k_limit k || pred then [{| w_key := KTmp (d_id d) i; w_src := i; w_cred := limited_cred v k c |}]
       else [{| w_key := id_key v i c; w_src := i; w_cred := c |}]
   end.
 Definition limit_disclosure (v : variant) (d : desc) (l : list icred) : list wcred :=
